@@ -1,3 +1,4 @@
+import Generated.Facts
 import SsoSpec.Lemmas.Base64
 import SsoModel.Seal
 
@@ -220,5 +221,11 @@ example : unmarshal AEAD.toy Codec.toy 1 (marshal AEAD.toy Codec.toy 1 true (Lis
 example : unmarshal AEAD.toy Codec.toy 2 (marshal AEAD.toy Codec.toy 1 true (List.replicate 16 7)) = none := by decide
 example : unmarshal AEAD.toy Codec.toy 1 (marshal AEAD.toy Codec.toy 1 true (List.replicate 16 7) ++ [10]) = none := by decide
 example : unmarshalLenient AEAD.toy Codec.toy 1 (marshal AEAD.toy Codec.toy 1 true (List.replicate 16 7) ++ [10]) = some true := by decide
+
+/-- Tie (T1): every `Encrypt` draws its nonce from `GenerateNonce` (crypto/rand) — once per sealing, under the cipher's lock;
+no pool, no counter, no reuse. "Crypto/rand nonces do not repeat" is the stated assumption; that *this* is where nonces
+come from is regenerated from the source. -/
+theorem C02_skeleton_Encrypt : Sso.Generated.skel_aead_Encrypt =
+    ["call:Lock", "defer:Unlock", "defer{", "call:recover", "if{", "call:Errorf", "}", "}", "call:GenerateNonce", "call:Seal", "call:append", "return"] := by decide
 
 end Sso.Seal
